@@ -192,9 +192,19 @@ func (store *Store) Restore() error {
 
 	r := resp.NewReader(store.rw)
 	database := 0
+	// End of the last complete record.
+	var offset int64
 
 	for {
 		value, n, err := r.ReadValue()
+		if err == io.ErrUnexpectedEOF {
+			// The last record was cut short by a crash. Drop it: records appended from now on
+			// would otherwise sit behind it and be swallowed by it at the next restore.
+			if err = store.rw.Truncate(offset); err != nil {
+				return fmt.Errorf("restore aof: truncate torn record: %v", err)
+			}
+			break
+		}
 		if err != nil && err != io.EOF {
 			return err
 		}
@@ -202,6 +212,7 @@ func (store *Store) Restore() error {
 			// Break out when there are no more bytes to read.
 			break
 		}
+		offset += int64(n)
 
 		command, err := value.MarshalRESP()
 		if err != nil {
@@ -213,8 +224,15 @@ func (store *Store) Restore() error {
 		if err != nil {
 			return err
 		}
+		if len(cmd) == 0 {
+			// Not a command (a bare string or number, an empty array): nothing to replay.
+			continue
+		}
 		// If the command is a SELECT command, set the database value.
 		if strings.EqualFold(cmd[0], "select") {
+			if len(cmd) < 2 {
+				return fmt.Errorf("restore aof: SELECT without a database index")
+			}
 			database, err = strconv.Atoi(cmd[1])
 			if err != nil {
 				return err
